@@ -45,7 +45,8 @@ def main():
         results = []
         try:
             for c in checks[:1]:
-                rcc, oc = sh([os.path.join(V, 'vtcheck'), c, '--tier', 'quick'], cwd=V)
+                rcc, oc = sh([os.path.join(V, 'vtcheck'), c, '--tier', 'quick'], cwd=V,
+                             env=dict(os.environ, VT_EVIDENCE_SCRATCH='1'))
                 caught = rcc == 1 and 'VIOLATION property=' in oc
                 keys = [l.strip()[:150] for l in oc.splitlines() if l.startswith('  key=')][:2]
                 results.append({'check': c, 'cmd': 'git -C /repo apply seeded/%s/%s; ./vtcheck %s --tier quick; git -C /repo checkout -- .' % (sid, os.path.basename(patch), c),
